@@ -42,6 +42,7 @@ func main() {
 	r.Floor("marathon.blocks", 60)
 	r.Floor("marathon.blocks-leaving-pool-behind", 5)
 	r.Floor("marathon.follower-restarts", 5)
+	r.Floor("marathon.write-error-at-admission", 10)
 	r.Floor("pools", 150)
 	r.Floor("order.calls", 1000)
 	r.Floor("order.pairs.dep", 500)
